@@ -263,6 +263,68 @@ ChainRefines == (Profile = "ifuses" /\ aux.ph = "done") => ChainI(aux.cl, aux.el
 (* negative control (must be REFUTED): a parse loop that forgets `negate = False` on elifuses                  *)
 CarriedNegateRefines == (Profile = "ifuses" /\ aux.ph = "done") => ChainIWith(aux.cl, aux.else, FALSE) = ChainP(aux.cl, aux.else)
 
+(* ============================================ Part 3b: filters ======================================= *)
+(* argument space x input shape of the built-in filters the bundled copy touches or sits next to.  The input is   *)
+(* built line by line (FLine), then terminated (FTerm), then a filter call and a form are chosen (FCall).         *)
+(* shapes of a line: E empty, N non-empty, B blanks only                                                         *)
+ShapeText(sh) == CASE sh = "E" -> <<>> [] sh = "N" -> <<97, 32, 98>> [] OTHER -> <<32, 32>>
+(* <<style, trailing terminator>>                                                                                *)
+FTerms == { <<"lf", FALSE>>, <<"lf", TRUE>>, <<"crlf", TRUE>> }
+TermOf(style) == IF style = "crlf" THEN <<CR, LF>> ELSE <<LF>>
+FInput(shapes, style, trail) ==
+    JoinWith([i \in 1..Len(shapes) |-> ShapeText(shapes[i])], 1, TermOf(style)) \o (IF trail THEN TermOf(style) ELSE <<>>)
+(* indent: every combination of width / first / blank, positional and keyword; w f b are the values in force     *)
+IndentCalls == {
+    [c |-> "indent", wd |-> 4, f |-> FALSE, b |-> FALSE], [c |-> "indent(3)", wd |-> 3, f |-> FALSE, b |-> FALSE],
+    [c |-> "indent(0, true, true)", wd |-> 0, f |-> TRUE, b |-> TRUE],
+    [c |-> "indent(3, true)", wd |-> 3, f |-> TRUE, b |-> FALSE], [c |-> "indent(3, false)", wd |-> 3, f |-> FALSE, b |-> FALSE],
+    [c |-> "indent(3, true, true)", wd |-> 3, f |-> TRUE, b |-> TRUE], [c |-> "indent(3, true, false)", wd |-> 3, f |-> TRUE, b |-> FALSE],
+    [c |-> "indent(3, false, true)", wd |-> 3, f |-> FALSE, b |-> TRUE], [c |-> "indent(3, false, false)", wd |-> 3, f |-> FALSE, b |-> FALSE],
+    [c |-> "indent(first=true)", wd |-> 4, f |-> TRUE, b |-> FALSE], [c |-> "indent(blank=true)", wd |-> 4, f |-> FALSE, b |-> TRUE],
+    [c |-> "indent(first=true, blank=true)", wd |-> 4, f |-> TRUE, b |-> TRUE],
+    [c |-> "indent(width=2, first=true)", wd |-> 2, f |-> TRUE, b |-> FALSE],
+    [c |-> "indent(width=2, blank=true, first=false)", wd |-> 2, f |-> FALSE, b |-> TRUE],
+    [c |-> "indent(1, blank=true)", wd |-> 1, f |-> FALSE, b |-> TRUE], [c |-> "indent(1, first=true)", wd |-> 1, f |-> TRUE, b |-> FALSE],
+    [c |-> "indent(1, first=true, blank=false)", wd |-> 1, f |-> TRUE, b |-> FALSE] }
+(* the legacy spelling: rejected by both engines (3.x dropped it, the 2.11.dev snapshot trips over its own warning) *)
+IndentLegacy == {"indent(2, indentfirst=true)", "indent(indentfirst=false)"}
+LinePrefixCalls == { [c |-> "lineprefix('  ')", ws |-> <<32, 32>>], [c |-> "lineprefix('')", ws |-> <<>>], [c |-> "lineprefix('\t')", ws |-> <<9>>] }
+(* version skew, not generated: `trim(chars)` (argument added in 2.11 final); `wordwrap` on anything but one          *)
+(* non-empty line (2.11 final / 3.x keep existing newlines and blank input)                                            *)
+OtherCalls == {"trim", "center(7)", "center(0)", "center(11)", "truncate(3)", "truncate(3, true)", "truncate(3, true, '~')",
+               "truncate(3, true, '~', 0)", "truncate(5, false, '..', 1)", "truncate(length=4, killwords=true)", "truncate(9)",
+               "striptags", "replace('a', 'z')", "replace('a', 'z', 1)", "replace(' ', '')", "replace('b', '<b>')", "upper", "lower",
+               "title", "capitalize", "wordcount", "length", "first", "last", "reverse", "list", "string", "escape", "forceescape",
+               "urlencode", "default('D')", "default('D', true)", "batch(2) | list", "slice(2) | list", "join('-')", "int", "float",
+               "indent(2) | trim", "striptags | trim", "wordwrap(3)", "wordwrap(3, false)", "urlize", "tojson", "format"}
+FForms(style) == IF style = "lf" THEN {"expr", "safe", "block"} ELSE {"expr", "safe"}
+
+FInit == /\ ps = <<>> /\ ks = <<>> /\ stack = <<>> /\ w = 0 /\ wc = 0 /\ plus = FALSE /\ tight = FALSE
+         /\ aux = [ph |-> "flines", shapes |-> <<>>]
+FLine == aux.ph = "flines" /\ Len(aux.shapes) < MaxW /\ \E sh \in {"E", "N", "B"} :
+           aux' = [aux EXCEPT !.shapes = Append(aux.shapes, sh)] /\ UNCHANGED <<ps, ks, stack, w, wc, plus, tight>>
+FTerm == aux.ph = "flines" /\ \E t \in FTerms :
+           /\ (Len(aux.shapes) = 0 => t[1] = "lf")
+           /\ aux' = [ph |-> "fcall", shapes |-> aux.shapes, style |-> t[1], input |-> FInput(aux.shapes, t[1], t[2])]
+           /\ UNCHANGED <<ps, ks, stack, w, wc, plus, tight>>
+FTemplate(call, form, input) ==
+    CASE form = "expr" -> <<"{{ fs | " \o call \o " }}">>
+      [] form = "safe" -> <<"{{ fs | safe | " \o call \o " }}">>
+      [] OTHER -> <<"{% filter " \o call \o " %}", "{% endfilter %}">>   \* the input goes between the two pieces
+FDone(fam, call, form, rest) ==
+    /\ ps' = FTemplate(call, form, aux.input) /\ ks' = [i \in 1..Len(FTemplate(call, form, aux.input)) |-> "filter"]
+    /\ aux' = [ph |-> "done", fam |-> fam, form |-> form, input |-> aux.input, shapes |-> aux.shapes, style |-> aux.style] @@ rest
+    /\ UNCHANGED <<stack, w, wc, plus, tight>>
+FIndent == aux.ph = "fcall" /\ \E c \in IndentCalls, form \in FForms(aux.style) :
+             FDone("indent", c.c, form, [fw |-> c.wd, first |-> c.f, blank |-> c.b, exp |-> Indent(aux.input, c.wd, c.f, c.b)])
+FLegacy == aux.ph = "fcall" /\ \E c \in IndentLegacy : FDone("fails", c, "expr", [x |-> 0])
+FLinePrefix == aux.ph = "fcall" /\ \E c \in LinePrefixCalls, form \in FForms(aux.style) :
+             FDone("lineprefix", c.c, form, [ws |-> c.ws, exp |-> ImplLP(aux.input, c.ws)])
+(* the other filters: differential only, on inputs of at most two lines                                          *)
+FOther == aux.ph = "fcall" /\ Len(aux.shapes) <= 2 /\ \E c \in OtherCalls, form \in {"expr", "safe"} :
+            /\ (c \in {"wordwrap(3)", "wordwrap(3, false)"} => aux.shapes = <<"N">>)
+            /\ FDone("other", c, form, [x |-> 0])
+
 (* ============================================ Part 4: sem ============================================= *)
 (* all texts up to MaxW over {x, SP, LF, CR, FF} x prefixes: do_lineprefix as coded satisfies P.           *)
 SemAlpha == {120, 32, LF, CR, 12}
@@ -289,13 +351,19 @@ PRefutesIdentity == (Profile = "sem" /\ aux.ws # <<>> /\ ~HasExotic(aux.t)) =>
     ((\E i \in 1..Len(aux.t) : ~IsTerm(aux.t[i], FALSE)) => ~LinePrefixOK(aux.t, aux.t, aux.ws))
 (* empty prefix: the marker changes nothing but terminator style / final terminator                        *)
 EmptyPrefixLoose == (Profile = "sem" /\ aux.ws = <<>>) => LooseEq(ImplLP(aux.t, aux.ws), aux.t, TRUE)
+(* indent: with width 0 the flags do not matter; `first` puts the indentation in front unconditionally; with      *)
+(* first and without blank it is NOT "the rule of the other lines applied to the first line" (negative control)  *)
+IndentZero == Profile = "sem" => \A f \in BOOLEAN, b \in BOOLEAN : Indent(aux.t, 0, f, b) = JoinWith(LineTexts(Append(aux.t, LF)), 1, <<LF>>)
+IndentFirst == Profile = "sem" => \A b \in BOOLEAN : Indent(aux.t, 2, TRUE, b) = <<32, 32>> \o Indent(aux.t, 2, FALSE, b)
+IndentBlankAll == Profile = "sem" => Indent(aux.t, 2, TRUE, TRUE) = IndentFirstLikeOthers(aux.t, 2, TRUE)
+IndentFirstSkipsEmpty == Profile = "sem" => Indent(aux.t, 2, TRUE, FALSE) = IndentFirstLikeOthers(aux.t, 2, FALSE)
 (* the prefix the parser derives from the begin token is the white space in front of the marker              *)
 PrefixIsWs == Profile = "sem" => /\ AutoindentPrefix(aux.ws \o <<123, 123, 42>>) = aux.ws
                                  /\ AutoindentPrefix(aux.ws \o <<123, 37, 42>>) = aux.ws
 SNext == FALSE /\ UNCHANGED vars
 
 (* ================================================ spec =============================================== *)
-Init == CASE Profile = "marker" -> MInit [] Profile = "assert" -> AInit [] Profile = "ifuses" -> UInit [] Profile = "sem" -> SInit [] OTHER -> GInit
+Init == CASE Profile = "filters" -> FInit [] Profile = "marker" -> MInit [] Profile = "assert" -> AInit [] Profile = "ifuses" -> UInit [] Profile = "sem" -> SInit [] OTHER -> GInit
 (* One flat disjunction, so that TLC's -coverage reports every production separately.  The productions of a part are   *)
 (* only enabled in its own profiles: Kinds / Texts are empty elsewhere, and the phases in aux.ph are disjoint.           *)
 Next == \/ PText \/ PVar \/ PComment \/ PRaw \/ PSet \/ PInclude \/ PImport \/ PFrom \/ PExtends
@@ -303,13 +371,14 @@ Next == \/ PText \/ PVar \/ PComment \/ PRaw \/ PSet \/ PInclude \/ PImport \/ P
         \/ MWrap \/ MPre \/ MVar \/ MBlock \/ MPost
         \/ APlace
         \/ UClause \/ UElse \/ UEnd
+        \/ FLine \/ FTerm \/ FIndent \/ FLegacy \/ FLinePrefix \/ FOther
 Spec == Init /\ [][Next]_vars
 
 (* sanity of the builder: the stack discipline (every end tag closes the innermost open block)             *)
 WellNested == Len(stack) <= MaxDepth /\ w <= MaxW /\ wc <= MaxWc
 
 (* ------------------------------------------- case emission -------------------------------------------- *)
-Done == CASE Profile \in {"marker", "assert", "ifuses"} -> aux.ph = "done"
+Done == CASE Profile \in {"marker", "assert", "ifuses", "filters"} -> aux.ph = "done"
           [] Profile = "sem" -> FALSE
           [] OTHER -> ps # <<>> /\ (stack = <<>> \/ EmitOpen)
 Case ==
@@ -319,6 +388,7 @@ Case ==
                                 truthy |-> aux.truthy, msg |-> aux.msg, raises |-> aux.raises, tight |-> tight]
       [] Profile = "ifuses" -> [k |-> "ifuses", ps |-> ps, ks |-> ks, pp |-> aux.pp, cl |-> aux.cl, else |-> aux.else,
                                 sel |-> ChainP(aux.cl, aux.else), tight |-> tight]
+      [] Profile = "filters" -> [k |-> "filter", ps |-> ps, ks |-> ks] @@ aux
       [] OTHER -> [k |-> "same", ps |-> ps, ks |-> ks, open |-> Len(stack), plus |-> plus, tight |-> tight]
 Emit == Done => PrintT(ToJson(Case))
 (* printed once: loader, contexts, the strings of the marker profile                                       *)
